@@ -82,10 +82,12 @@ class Scen:
         return [i.name for i in self.inputs(*a, **k)]
 
     # ---- real objects
-    def dkeys(self, mk):
-        """mk: bool array (nterms, 3) -> DerivativeKeys*; columns: nn_params, a, b"""
+    def dkeys(self, mk, eq_order=("a", "b")):
+        """mk: bool array (nterms, 3) -> DerivativeKeys*; columns: nn_params, a, b.
+        eq_order: the order in which the mask dictionaries are written (a flag belongs to the key it is written under)"""
         terms = TERMS[self.kind]
-        kw = {t: Params(nn_params=mk[i, 0], eq_params={"a": mk[i, 1], "b": mk[i, 2]}) for i, t in enumerate(terms)}
+        col = {"a": 1, "b": 2}
+        kw = {t: Params(nn_params=mk[i, 0], eq_params={k: mk[i, col[k]] for k in eq_order}) for i, t in enumerate(terms)}
         cls = {"ODE": DerivativeKeysODE, "statio": DerivativeKeysPDEStatio, "nonstatio": DerivativeKeysPDENonStatio}[self.kind]
         return cls(**kw)
 
